@@ -13,6 +13,7 @@ TOPO = {
     "tomawrap": dict(Stages=1, CapIn="T", CapOut=0, Reorder=True, Header=True, HdrWrites=0, WritesPer=5, pool="T"),
     "samvar": dict(Stages=2, CapIn="T", CapOut=0, Reorder=True, Header=True, HdrWrites=1, WritesPer=2, pool="T"),
     "variants": dict(Stages=1, CapIn="N", CapOut="N", Reorder=True, Header=False, HdrWrites=1, WritesPer=2, pool="T"),
+    "variantsref": dict(Stages=1, CapIn="N", CapOut="N", Reorder=True, Header=False, HdrWrites=1, WritesPer=2, pool="T", skip=[1]),
     "snps": dict(Stages=1, CapIn=0, CapOut="N", Reorder=True, Header=False, HdrWrites=1, WritesPer=1, pool="P"),
     "udlist": dict(Stages=1, CapIn="N", CapOut="N", Reorder=True, Header=False, HdrWrites=1, WritesPer=1, pool="P"),
 }
@@ -20,7 +21,12 @@ TOPO = {
 
 def cfg_of(vec, hdrsel=True):
     c = dict(TOPO[vec["cmd"]])
+    skip = c.pop("skip", [])
     n = vec["N"]
+    if vec["cmd"] == "variantsref":
+        n = n + 1                      # the reference record travels through the pipeline too
+    if n <= 1:
+        skip = []
     t = vec.get("T", 1) if c.pop("pool") == "T" else NCPU
     t = max(1, min(t, max(n, 1)))
     for k, v in list(c.items()):
@@ -28,7 +34,7 @@ def cfg_of(vec, hdrsel=True):
             c[k] = t
         elif v == "N":
             c[k] = max(n, 1)
-    c.update(name=vec["cmd"], N=n, T=t, HdrSel=hdrsel)
+    c.update(name=vec["cmd"], N=n, T=t, HdrSel=hdrsel, Skip=skip)
     f = {"kind": "none", "at": 0}
     if vec.get("mode") == "wfail":
         f = {"kind": "wr", "at": vec["failk"]}
